@@ -43,7 +43,7 @@ package main
 // violation too.
 //
 // Deviation from DESIGN: quick uses the "all names in one tree" trees instead
-// of all 126 single-entry trees to stay near 130 backup/restore pairs (the
+// of all 126 single-entry trees to stay near 160 backup/restore pairs (the
 // single-entry product runs in the thorough tier); the DeviceID mutant of
 // DESIGN needs two filesystems and is replaced by other mutants.
 
@@ -516,7 +516,7 @@ func verifC01MetaCases(thorough bool, probe func(sec int64) bool, trusted bool) 
 		for _, c := range []struct {
 			n string
 			s int64
-		}{{"mtime=2262-04-11T23:47:17", 9223372037}, {"mtime=2300-01-01", 10413792000}, {"mtime=9999-12-31", 253402214400}} {
+		}{{"mtime=beyond-2262:2262-04-11T23:47:17", 9223372037}, {"mtime=beyond-2262:2300-01-01", 10413792000}, {"mtime=beyond-2262:9999-12-31", 253402214400}} {
 			if probe(c.s) {
 				cs = append(cs, verifC01MetaCase{c.n, verifC01Meta{Mtime: tm(c.s, 0)}, ""})
 			}
@@ -562,7 +562,7 @@ func verifC01Trees(thorough bool, kinds []string, metas []verifC01MetaCase) (tre
 				continue
 			}
 			base, mc := base, mc
-			trees = append(trees, verifC01Tree{ID: "meta|" + base + "|" + mc.name, NT: true, Build: func(b *verifC01Builder) {
+			trees = append(trees, verifC01Tree{ID: "meta|" + mc.name + "|" + base, NT: true, Build: func(b *verifC01Builder) {
 				b.kind(".", "byte1", "sibling")
 				p := b.kind(".", base, "base")
 				b.setMeta(p, mc.m)
@@ -575,12 +575,12 @@ func verifC01Trees(thorough bool, kinds []string, metas []verifC01MetaCase) (tre
 			continue
 		}
 		mc := mc
-		trees = append(trees, verifC01Tree{ID: "meta|top|" + mc.name, NT: true, Build: func(b *verifC01Builder) {
+		trees = append(trees, verifC01Tree{ID: "meta|" + mc.name + "|top", NT: true, Build: func(b *verifC01Builder) {
 			b.kind(".", "byte1", "f")
 			b.setMeta(".", mc.m)
 		}})
 		if mc.name != "mode=0644" {
-			trees = append(trees, verifC01Tree{ID: "meta|hardlink2|" + mc.name, NT: true, Build: func(b *verifC01Builder) {
+			trees = append(trees, verifC01Tree{ID: "meta|" + mc.name + "|hardlink2", NT: true, Build: func(b *verifC01Builder) {
 				p := b.kind(".", "hardlink2", "h")
 				b.setMeta(p, mc.m)
 			}})
@@ -607,7 +607,15 @@ func verifC01Trees(thorough bool, kinds []string, metas []verifC01MetaCase) (tre
 		}
 	}
 
-	// representative trees for the configuration product
+	// representative trees for the configuration product (without the mtimes beyond
+	// 2262, which have their own one-factor trees)
+	allMetas := metas
+	metas = nil
+	for _, m := range allMetas {
+		if !strings.HasPrefix(m.name, "mtime=beyond-2262") {
+			metas = append(metas, m)
+		}
+	}
 	richAll := verifC01Tree{ID: "rich|all", NT: true, Build: func(b *verifC01Builder) {
 		b.dir("d\xff sub")
 		for i, k := range kinds {
@@ -779,7 +787,7 @@ func verifC01Pair(t *testing.T, r *vh.Run, base global.Options, ck string, tree 
 	} else {
 		r.Outcome("differs")
 	}
-	if tree.ID == "allnames|symlink-raw" || tree.ID == "meta|byte1|mode=04755" {
+	if tree.ID == "allnames|symlink-raw" || tree.ID == "meta|mode=04755|byte1" {
 		r.Sample(map[string]any{"tree": tree.ID, "config": cfg.String(), "entries": len(src), "differences": len(diffs), "source": src})
 	}
 }
